@@ -9,7 +9,7 @@ PROPERTY = "C05"
 RULE = ("standard: StandardCombi on {Trapezoidal(boundary T/F), ClenshawCurtis, GaussLegendre, Simpson, Leja, Lagrange, BSpline} grids, d 1-3, "
         "1<=lmin<=lmax<=lmin+3, vector-valued arbitrary integrand; dimadaptive: DimAdaptiveCombi (maxv=2) with drawn tolerance and point "
         "limit; dw / es: dimension-wise (all versions, rebalancing, boundary; global trapezoidal, high-order, Romberg, Lagrange and B-spline grids) and extend-split (version 0) runs driven by a scripted "
-        "decision tape and stopped cleanly by a drawn max_evaluations; a third of all cases in every sub uses the box in other units (whole box or single dimensions scaled by 2^-30 .. 2^20, tolerances relative to the volume), standard trapezoidal grids also with integrator=old, with and without reevaluate_at_end. Oracle: the reported value "
+        "decision tape and stopped cleanly by a drawn max_evaluations or (a fifth of the cases) by the documented max_time rule under a clock owned by the harness whose readings advance by a drawn tick tape; a third of all cases in every sub uses the box in other units (whole box or single dimensions scaled by 2^-30 .. 2^20, tolerances relative to the volume), standard trapezoidal grids also with integrator=old, with and without reevaluate_at_end. Oracle: the reported value "
         "equals sum_grids c * sum_i w_i f(p_i) recomputed from the public points and weights (per area for extend-split; "
         "grid.integrate per component for hierarchical grids), equals get_points_and_weights() applied to f (nodal grids), equals "
         "evaluate_final_combi(), and is unchanged by reevaluate_at_end. Non-trivial = (standard) d>=2 and lmax>lmin; (dimadaptive) at "
@@ -362,6 +362,10 @@ def run_adaptive(case):
             out.bad(sub + "/reevaluate_at_end/differs", "%s: %s vs %s" % (tag, rep2, reported))
     out.nontrivial = st_["steps"] >= 2 and st_["strict"] >= 1
     out.cls("version=%d" % case["version"], "steps>=2" if st_["steps"] >= 2 else "steps<2", _scale_class(case))
+    if case.get("clock"):
+        by_time = int(res[6][-1]) <= int(case["maxev"])
+        out.cls("max_time/" + ("stopped-by-the-clock-after-%s-steps" % (">=1" if st_["steps"] >= 1 else "0") if by_time else "point-limit-first"),
+                "max_time/clock-model=" + case["clock"]["model"])
     if kind == "dw":
         out.cls("dwgrid=" + case.get("dwgrid", "trapezoidal"))
     else:
@@ -414,10 +418,19 @@ def dw_strategy(tier):
         c["extra"] = draw(st.sampled_from([0, 0, 1, 10, 40]))
         c["dwgrid"] = draw(st.sampled_from(["trapezoidal", "trapezoidal", "trapezoidal", "highorder", "highorder", "romberg", "lagrange", "bspline"]))
         c["max_degree"] = draw(st.integers(2, 4))
+        if draw(st.integers(0, 4)) == 0:
+            # documented stopping rule max_time with a clock owned by the harness (drive.FakeClock): the budget runs out at a
+            # drawn reading of the clock - before / after an evaluation or inside a refinement step
+            c["clock"] = dict(ticks=draw(st.lists(st.sampled_from([1.0, 0.25, 1.0, 0.0, 3.0]), min_size=1, max_size=6)),
+                              model=draw(st.sampled_from(["same", "same", "same", "epoch"])),
+                              max_time=draw(st.sampled_from([2.5, 3.5, 1.5, 6.0, 0.9, 4.5, 0.1])))
+            c["clock_case"] = True
         if c["dwgrid"] == "romberg":        # the Romberg grid asserts exactly dyadic step widths
             c["a"] = [0.0] * c["dim"]
             c["b"] = [draw(st.sampled_from([1.0, 2.0, 0.5])) for _ in range(c["dim"])]
             c["rebalancing"] = False
+        if c.pop("clock_case", False):
+            c["maxev"] = 2 * c["maxev"]
         if c["dwgrid"] in ("lagrange", "bspline"):
             c["maxev"] = min(c["maxev"], 150)
         sc = drive.st_boxscale(draw, c["dim"])
@@ -433,6 +446,13 @@ def es_strategy(tier):
         c = draw(drive.st_es_case(tier=tier, versions=(0,)))
         c["nout"] = draw(st.integers(1, 2))
         c["extra"] = draw(st.sampled_from([0, 0, 1, 20, 80]))
+        if draw(st.integers(0, 4)) == 0:
+            # documented stopping rule max_time with a clock owned by the harness (drive.FakeClock): the budget runs out at a
+            # drawn reading of the clock - before / after an evaluation or inside a refinement step
+            c["clock"] = dict(ticks=draw(st.lists(st.sampled_from([1.0, 0.25, 1.0, 0.0, 3.0]), min_size=1, max_size=6)),
+                              model=draw(st.sampled_from(["same", "same", "same", "epoch"])),
+                              max_time=draw(st.sampled_from([2.5, 3.5, 1.5, 6.0, 0.9, 4.5, 0.1])))
+            c["clock_case"] = True
         c["maxev"] = min(c["maxev"], 700)
         c["esgrid"] = draw(st.sampled_from(["trapezoidal", "trapezoidal", "clenshawcurtis", "gausslegendre", "simpson", "mixed", "mixed"]))
         if c["esgrid"] == "mixed":
@@ -443,6 +463,8 @@ def es_strategy(tier):
             c["ssd"] = False
             c["boundary"] = True
             c["maxev"] = min(c["maxev"], 400)
+        if c.pop("clock_case", False):
+            c["maxev"] = 1500 if c["esgrid"] == "trapezoidal" else 700     # the clock, not the point limit, should end most of these runs
         return drive.apply_boxscale(c, drive.st_boxscale(draw, c["dim"]))
     return s()
 
